@@ -400,6 +400,17 @@ static void script_vm(const std::vector<std::string>& t, bool dual_alloc, bool j
           if (arg < spans.size() && spans[arg]) { r = err_code(al.release(spans[arg])); spans[arg] = nullptr; }
           else r = 2;
           break;
+        case 'h': {   // h<i>:<n>  JitAllocator::shrink(span i, n); n = 0 releases the span
+          const char* colon = strchr(s, ':');
+          size_t n = colon ? size_t(strtoul(colon + 1, nullptr, 10)) : 0;
+          if (arg < spans.size() && spans[arg]) {
+            JitAllocator::Span sp;
+            r = err_code(al.query(Out(sp), spans[arg]));
+            if (r == 0) { r = err_code(al.shrink(sp, n)); if (r == 0 && n == 0) spans[arg] = nullptr; }
+          }
+          else r = 2;
+          break;
+        }
         default: r = 2; break;
       }
       F.armed = false;
@@ -546,6 +557,17 @@ static void dump_tables(size_t) {
   for (size_t i = 0; i < ASMJIT_ARRAY_SIZE(ArenaHash_prime_array); i++)
     out += " " + std::to_string(ArenaHash_prime_array[i].prime) + ":" + std::to_string(ArenaHash_prime_array[i].rcp) + ":" + std::to_string(unsigned(ArenaHash_prime_shift[i]));
   printf("%s\n", out.c_str());
+}
+
+// "K": the constants of the COMPILED library that the model hard-wires (cross-check of the python source parser behind
+// coq/gen/C15Consts.v)
+static void dump_consts() {
+  printf("K sso_capacity=%u slot_min=%zu slot_count=%zu grow_threshold=%u index_count=%u label_entry_size=%zu pointer_size=%zu "
+         "reloc_Expression=%u reloc_AbsToAbs=%u reloc_RelToAbs=%u reloc_AbsToRel=%u reloc_X64AddressEntry=%u\n",
+         unsigned(String::kSSOCapacity), size_t(Arena::kMinReusableSlotSize), size_t(Arena::kReusableSlotCount), unsigned(Globals::kGrowThreshold),
+         unsigned(ConstPool::kIndexCount), sizeof(LabelEntry), sizeof(void*),
+         unsigned(RelocType::kExpression), unsigned(RelocType::kAbsToAbs), unsigned(RelocType::kRelToAbs), unsigned(RelocType::kAbsToRel),
+         unsigned(RelocType::kX64AddressEntry));
 }
 
 static void calc_mod_cmd(const std::vector<std::string>& t) {
